@@ -324,6 +324,14 @@ func compareProbe(c *core.Ctx, what string, pr *c07Probe, base, got probeResult,
 
 func c07History(c *core.Ctx) {
 	r := c.R
+	if c.Case%150 == 0 {
+		if sig, det := sameNamedTypesCheck(c.R); sig != "" {
+			c.Violation(sig, det)
+			return
+		}
+		c.Eval(48)
+		c.Count("same_named_destination_type_rounds", 1)
+	}
 	probeSeed := r.Fork()
 	pr := c07RandomProbe(probeSeed)
 	pc := &poolCounters{}
